@@ -35,6 +35,10 @@ type Op struct {
 	B    int      `json:"b,omitempty"`
 	Var  string   `json:"var,omitempty"`
 	Val  string   `json:"val,omitempty"` // Lisp source of the value
+	// Aim (ranged clears): the end of the range is taken relative to the size
+	// the list has when the operation runs - at least the older half goes,
+	// at least one form stays and is rewritten
+	Aim bool `json:"aim,omitempty"`
 }
 
 // Pin fixes the fault of a case: a process death at the Step-th file-system
@@ -173,6 +177,11 @@ func avoids(avoid []harness.Finding, trig string) bool {
 func genForm(r *tape.Rand, avoid []harness.Finding, stash bool) []string {
 	for try := 0; try < 20; try++ {
 		if f := genForm1(r, avoid, stash); readable(f) {
+			if !stash && r.Pct(5) {
+				// a history entry whose last line is empty (the editor's
+				// form after a final line break; seeded change C20-l2)
+				f = append(f, "")
+			}
 			return f
 		}
 	}
@@ -265,6 +274,15 @@ func (e *engine) Generate(seed uint64, idx int, tier string, avoid []harness.Fin
 	if fatForms && limit < 12 {
 		limit = 12 + r.Intn(20)
 	}
+	// rewrite-focused sessions (12 %): many ranged clears of a history that is
+	// not compacted away, written through a small buffer - the rewrite of a
+	// clear then takes several write steps whose boundaries fall inside forms
+	// (seeded change C20-i2 was found once in 2000 ordinary sessions)
+	focus := r.Pct(12)
+	if focus {
+		c.LineBuf = []int{16, 24, 33, 48, 64}[r.Intn(5)]
+		limit = 12 + r.Intn(20)
+	}
 	c.Ops = append(c.Ops, Op{K: "limit", A: limit})
 	// swarm: per-case operation mix
 	wHist := 40 + r.Intn(50)
@@ -274,6 +292,9 @@ func (e *engine) Generate(seed uint64, idx int, tier string, avoid []harness.Fin
 	wRestart := 3 + r.Intn(15)
 	wLimit := r.Intn(6)
 	rangedClear := r.Pct(40)
+	if focus {
+		wHist, wClear, rangedClear, wLimit, wSet = 90, 8+r.Intn(8), true, 0, r.Intn(5)
+	}
 	hn, sn := 0, 0 // rough sizes of the history and the stash, to aim ranged clears
 	c.SafeRanged = avoids(avoid, "ranged-clear")
 	total := wHist + wStash + wSet + wClear + wRestart + wLimit
@@ -318,10 +339,10 @@ func (e *engine) Generate(seed uint64, idx int, tier string, avoid []harness.Fin
 			c.Ops = append(c.Ops, Op{K: "set", Var: v, Val: vals[r.Intn(len(vals))]})
 		case x < wHist+wStash+wSet+wClear:
 			op := Op{K: "hclear", A: 0, B: -1}
-			if r.Pct(50) {
+			if r.Pct(50) && !(focus && r.Pct(50)) {
 				op.K = "sclear"
 			}
-			if rangedClear && r.Pct(50) {
+			if rangedClear && (focus || r.Pct(50)) {
 				op.A = r.Intn(4)
 				op.B = op.A + r.Intn(4)
 				if c.SafeRanged {
@@ -332,6 +353,7 @@ func (e *engine) Generate(seed uint64, idx int, tier string, avoid []harness.Fin
 					if n := map[bool]int{true: sn, false: hn}[op.K == "sclear"]; n >= 3 && r.Pct(70) {
 						op.B = n/2 + r.Intn(n-1-n/2)
 					}
+					op.Aim = focus
 				}
 			}
 			if op.K == "sclear" {
@@ -631,6 +653,9 @@ func (w *world) apply(op Op) (crashed bool, fail string) {
 			n := repl.TheHistory.Size()
 			if op.K == "sclear" {
 				n = repl.TheStash.Size()
+			}
+			if op.Aim && n >= 3 && op.B >= 0 {
+				op.A, op.B = 0, n/2+op.B%(n-1-n/2)
 			}
 			end := op.B
 			if end < 0 || n <= end {
@@ -1186,6 +1211,17 @@ func (e *engine) crashRun(ops []Op, i, k int, after bool, ioErr bool, snaps []sn
 			"death %s step %d of op %d (%s): next start loaded stash %s; before the op %s, after it %s",
 			side, k, i, ops[i].K, show(got.stash), show(A.stash), show(B.stash))
 	}
+	if kind := ops[i].K; kind != "set" && kind != "limit" {
+		// The dying process was not changing a setting: the next start loads
+		// the settings the session had (seeded change C20-l1: the start-up
+		// itself rewrites config.lisp setting by setting).
+		for _, v := range watched {
+			if got.settings[v] != A.settings[v] {
+				return viol("crash-settings-lost", "death %s step %d of op %d (%s), which changes no setting: %s was %s and is %s at the next start",
+					side, k, i, ops[i].K, v, A.settings[v], got.settings[v])
+			}
+		}
+	}
 	if ioErr && e.shortWrite {
 		// A fragment without a newline is left at the end of the file. It must
 		// not be loaded (checked above); what later appends make of it is
@@ -1211,6 +1247,9 @@ func (e *engine) crashRun(ops []Op, i, k int, after bool, ioErr bool, snaps []sn
 // readable reports whether the lines are in the input domain: exactly one
 // complete Lisp form whose first and last line are not blank.
 func readable(lines []string) (ok bool) {
+	for len(lines) > 1 && lines[len(lines)-1] == "" {
+		lines = lines[:len(lines)-1] // empty lines after the form
+	}
 	if len(lines) == 0 || strings.TrimSpace(lines[0]) == "" || strings.TrimSpace(lines[len(lines)-1]) == "" {
 		return false
 	}
